@@ -598,6 +598,64 @@ Definition spec_fn3 (prev cur : list comp) (same : bool) (out : list Z) : list Z
   | _ => verdict false          (* combine_modules must not fail *)
   end.
 
+(* ---------- domain_identification.generate_domains: the loop over the genes of every region ----------
+     prev = None
+     for region in record.get_regions():
+         for cds in region.cds_children:
+             if not (domains or motifs): prev = None; continue
+             modules = build_modules_for_cds(domains, name); results[cds] = CDSResult(domains, motifs, modules)
+             info = CDSModuleInfo(cds, modules)
+             if prev and prev.modules and info.modules and prev.cds.region == cds.region:
+                 combine_modules(prev, info) if cds.strand == -1 else combine_modules(info, prev)
+             prev = info
+     ... cds_result.modules = [mod for mod in modules if len(mod.components) > 1]
+   A gene: its domain hits, whether it has a/b motifs, its strand, its region.  combine_modules rewrites the module lists
+   of both genes in place, so the state is the list of module lists of the genes met so far (a gene without hits has
+   none and breaks the chain).  `stale_prev` = true is a seeded variant of round 6: a gene whose hits form no module
+   is skipped WITHOUT becoming `prev`, so its predecessor is merged with its successor *)
+Record ginfo := mkGI { g_doms : list comp; g_motifs : bool; g_strand : Z; g_region : Z }.
+Definition set_nth {A} (i : nat) (x : A) (l : list A) : list A := firstn i l ++ x :: skipn (S i) l.
+Definition gd_step (stale_prev : bool) (st : res (list (option (list module)) * option (nat * Z * Z))) (g : ginfo)
+  : res (list (option (list module)) * option (nat * Z * Z)) :=
+  do s <- st;
+  let '(acc, prev) := s in
+  if negb (nonempty (g_doms g) || g_motifs g) then Ok (acc ++ [None], None) else
+  do ms <- build_modules_for_cds (g_doms g);
+  let here := length acc in
+  if stale_prev && negb (nonempty ms) then Ok (acc ++ [Some ms], prev) else
+  match prev with
+  | Some (i, pstrand, pregion) =>
+    match nth_error acc i with
+    | Some (Some pms) =>
+      if nonempty pms && nonempty ms && (pregion =? g_region g) then
+        (* reverse strand: the gene met earlier is downstream, it plays `current` *)
+        let same := pstrand =? g_strand g in
+        if g_strand g =? -1 then
+          do r <- combine_modules same pms ms;
+          let '(_, previous', current') := r in
+          Ok (set_nth i (Some current') acc ++ [Some previous'], Some (here, g_strand g, g_region g))
+        else
+          do r <- combine_modules same ms pms;
+          let '(_, previous', current') := r in
+          Ok (set_nth i (Some previous') acc ++ [Some current'], Some (here, g_strand g, g_region g))
+      else Ok (acc ++ [Some ms], Some (here, g_strand g, g_region g))
+    | _ => Ok (acc ++ [Some ms], Some (here, g_strand g, g_region g))
+    end
+  | None => Ok (acc ++ [Some ms], Some (here, g_strand g, g_region g))
+  end.
+Definition generate_modules_gen (stale_prev : bool) (genes : list ginfo) : res (list (option (list module))) :=
+  do s <- fold_left (gd_step stale_prev) genes (Ok ([], None));
+  Ok (map (fun o => match o with
+                    | Some ms => Some (filter (fun m => 1 <? zlen (m_comps m)) ms)
+                    | None => None end) (fst s)).
+Definition generate_modules := generate_modules_gen false.
+
+Definition dGInfo : dec ginfo := fun l =>
+  match dList dComp l with
+  | Some (cs, m :: st :: rg :: r) => Some (mkGI cs (negb (m =? 0)) st rg, r)
+  | _ => None
+  end.
+
 Definition run_C14 (fn : Z) (l : list Z) : list Z :=
   match fn with
   | 1 => match dList dComp l with
@@ -618,6 +676,11 @@ Definition run_C14 (fn : Z) (l : list Z) : list Z :=
                 (do p <- build_modules_for_cds prev;
                  do c <- build_modules_for_cds cur;
                  combine_modules same c p)
+         | _ => bad_input end
+  | 5 => (* generate_domains: the genes of the regions in order -> per gene: no entry (0) or its modules *)
+         match dList dGInfo l with
+         | Some (genes, []) =>
+           eRes (eList (fun o => match o with Some ms => 1 :: eModules ms | None => [0] end)) (generate_modules genes)
          | _ => bad_input end
   | 4 => (* build from the hits as supplied, reload every module, build from the hits in position order *)
          match dList dComp l with
